@@ -207,6 +207,34 @@ def run (s : St) (toks : List String) : St × String :=
       | (ts, some tr) => ({ s with ts := ts }, "ok trace=" ++ showList showEv tr)
       | (ts, none) => ({ s with ts := ts }, "rejected")
     | _, _ => (s, "bad-op")
+  -- `t.grad = Tensor(array)` : the shape-checked setter
+  | ["setgrad", i, sh, d] =>
+    match parseNat? i, parseArr? sh d with
+    | some i, some g =>
+      match assignGrad s.ts i g with
+      | some ts => ({ s with ts := ts }, "ok") | none => (s, "rejected")
+    | _, _ => (s, "bad-op")
+  -- tensors made from tensors without an op
+  | ["detach", i] =>
+    match (parseNat? i).bind (detach s.ts) with
+    | some (ts, k) => ({ s with ts := ts }, s!"t{k}") | none => (s, "rejected")
+  | ["fromdata", i, rg] =>
+    match parseNat? i, parseBool? rg with
+    | some i, some rg =>
+      match fromData s.ts i rg with
+      | some (ts, k) => ({ s with ts := ts }, s!"t{k}") | none => (s, "rejected")
+    | _, _ => (s, "bad-op")
+  | ["copy", i] =>
+    match (parseNat? i).bind (copyTensor s.ts) with
+    | some (ts, k) => ({ s with ts := ts }, s!"t{k}") | none => (s, "rejected")
+  | ["gradt", i] =>
+    match (parseNat? i).bind (gradTensor s.ts) with
+    | some (some (ts, k)) =>       -- the tensor handed out is not kept: its flags are the answer
+      match ts.g[k]? with
+      | some n => (s, s!"rg={showBool n.reqGrad} leaf={showBool n.isLeaf} fn={showBool n.back.isSome} grad={showBool n.grad.isSome} children={n.children.length}")
+      | none => (s, "bad-op")
+    | some none => (s, "none")
+    | none => (s, "rejected")
   | ["zero", i] =>
     match (parseNat? i).bind (zeroGrad s.ts) with
     | some ts => ({ s with ts := ts }, "ok") | none => (s, "rejected")
